@@ -377,3 +377,42 @@ func structFieldLeaves(v ssa.Value, name string, depth int) (out []ssa.Value, ok
 	}
 	return nil, false
 }
+
+// byField re-keys the atoms of t that are loads of a struct field by the field itself (owner type and
+// name), dropping the access path that leads to the struct: `rs.pktMgr.packetCount` in one function and
+// `s.packetCount` in a method of the packet manager are then the same atom.  Only for comparisons where the
+// struct is known to exist once per session (the packet manager's counter).
+func (t term) byField() term {
+	r := newTerm()
+	r.c = t.c
+	for a, k := range t.coef {
+		key := a
+		v := t.atoms[a]
+		for {
+			switch x := v.(type) {
+			case *ssa.Convert:
+				v = x.X
+				continue
+			case *ssa.ChangeType:
+				v = x.X
+				continue
+			}
+			break
+		}
+		switch x := v.(type) {
+		case *ssa.UnOp:
+			if fa, ok := x.X.(*ssa.FieldAddr); ok && x.Op == token.MUL {
+				owner, n, _, _ := fieldOf(fa)
+				key = "field:" + typeName(owner) + "." + n
+			}
+		case *ssa.Field:
+			st, _ := x.X.Type().Underlying().(*types.Struct)
+			if st != nil {
+				key = "field:" + typeName(x.X.Type()) + "." + st.Field(x.Field).Name()
+			}
+		}
+		r.coef[key] += k
+		r.atoms[key] = t.atoms[a]
+	}
+	return r
+}
